@@ -1047,3 +1047,111 @@ func runOpenedJoinScenarios(rng *rand.Rand, n int, st *c06Stats, fail func(prop,
 		}
 	}
 }
+
+// Back-filling a predecessor the log names but does not hold (C06): after a merge with a size bound a
+// log's entries link to entries it dropped.  When such a missing predecessor later arrives through a
+// fork that hangs off it, it is a candidate like any other - named by an entry the log already
+// verified or not, its signature, key and the access controller decide - and an invalid one must make
+// the merge fail and leave the log as it was.
+func runBackfillForgeScenarios(rng *rand.Rand, n int, st *c06Stats, fail func(prop, mon, key, detail string, c interface{})) {
+	ctx := context.Background()
+	kinds := []string{"nosig", "nokey", "payload", "flipsig", "otherkey", "aclpayload"}
+	for it := 0; it < n; it++ {
+		w := newWorld()
+		pac := &payloadAC{deny: map[string]bool{}}
+		mk := func(id string) *ipfslog.IPFSLog {
+			l, err := ipfslog.NewLog(w.api, w.idents[id], &ipfslog.LogOptions{ID: "L", AccessController: pac})
+			if err != nil {
+				panic(err)
+			}
+			return l
+		}
+		writer, fork, replica := mk("A"), mk("B"), mk("C")
+		m, r := 2+rng.Intn(4), 1+rng.Intn(3)
+		var chain []iface.IPFSLogEntry
+		for i := 0; i < m; i++ {
+			e, err := writer.Append(ctx, []byte(fmt.Sprintf("a%d", i+1)), nil)
+			if err != nil {
+				panic(err)
+			}
+			chain = append(chain, e)
+		}
+		if _, err := fork.Join(writer, -1); err != nil {
+			panic(err)
+		}
+		for i := 0; i < 1+rng.Intn(2); i++ {
+			if _, err := fork.Append(ctx, []byte(fmt.Sprintf("f%d", i+1)), nil); err != nil {
+				panic(err)
+			}
+		}
+		for i := 0; i < r; i++ {
+			if _, err := writer.Append(ctx, []byte(fmt.Sprintf("a%d", m+i+1)), nil); err != nil {
+				panic(err)
+			}
+		}
+		// the replica keeps the r newest entries: the oldest of them names chain[m-1], which it does not hold
+		if _, err := replica.Join(writer, r); err != nil {
+			panic(err)
+		}
+		victim := chain[m-1]
+		if _, held := replica.Get(victim.GetHash()); held {
+			continue
+		}
+		kind := kinds[rng.Intn(len(kinds))]
+		forgedMap := entry.NewOrderedMap()
+		for _, e := range fork.GetEntries().Slice() {
+			if e.GetHash().String() != victim.GetHash().String() {
+				forgedMap.Set(e.GetHash().String(), e)
+				continue
+			}
+			c := cloneEntry(e)
+			switch kind {
+			case "nosig":
+				c.Sig = nil
+			case "nokey":
+				c.Key = nil
+			case "payload":
+				c.Payload = append([]byte("tampered-"), e.GetPayload()...)
+			case "flipsig":
+				s := append([]byte{}, e.GetSig()...)
+				s[rng.Intn(len(s))] ^= 1 << uint(rng.Intn(8))
+				c.Sig = s
+			case "otherkey":
+				c.Key = w.idents["D"].PublicKey
+			case "aclpayload":
+				pac.deny[string(e.GetPayload())] = true
+			}
+			forgedMap.Set(e.GetHash().String(), c)
+		}
+		forged, err := ipfslog.NewLog(w.api, w.idents["B"], &ipfslog.LogOptions{ID: "L", Entries: forgedMap, Heads: fork.Heads().Slice()})
+		if err != nil {
+			panic(err)
+		}
+		before := snapLog(replica)
+		headsBefore := sortedCopy(hashesOf(replica.Heads().Slice()))
+		st.forged++
+		st.kinds["backfill-"+kind]++
+		info := map[string]interface{}{"scenario": "an invalid entry arrives as the missing predecessor of an entry the log holds", "kind": kind, "chain": m + r,
+			"kept_by_bounded_merge": r, "victim_payload": string(victim.GetPayload()), "seed_iteration": it}
+		var jerr error
+		func() {
+			defer func() {
+				if rec := recover(); rec != nil {
+					jerr = fmt.Errorf("panic: %v", rec)
+					fail("C06", "join-no-panic", "C06:join-panics-on-forged-entry", fmt.Sprint(rec), info)
+				}
+			}()
+			_, jerr = replica.Join(forged, -1)
+		}()
+		if jerr == nil {
+			fail("C06", "forged-entry-rejected", "C06:join-accepted-invalid-entry:backfill-"+kind,
+				"the merge succeeded although the predecessor it back-filled is invalid ("+kind+")", info)
+			continue
+		}
+		st.rejected++
+		after := snapLog(replica)
+		if len(after.entries) != len(before.entries) || !eqStrings(after.values, before.values) || !eqStrings(sortedCopy(hashesOf(replica.Heads().Slice())), headsBefore) {
+			fail("C06", "failed-join-unchanged", "C06:failed-join-changed-log", "the refused merge changed the log", info)
+		}
+	}
+}
